@@ -488,7 +488,9 @@ def execute(case, se, out, trace):
         # (g) the path's own parameterisation follows the reversal: point(t) of the very object (which may
         # carry a length cache filled by an earlier observer) agrees with point(t) of a cache-free copy
         scale_now = max(_scale(real), 1e-300)
-        fresh = _copy.copy(P)
+        # a path object built anew from copies of the segments: it cannot have inherited any cache
+        segs_now = [_copy.copy(x) for x in P]
+        fresh = se.Path(*segs_now) if len(segs_now) != 1 else se.Path(segs_now[0])
         try:
             # fill both length caches with the same cheap settings; point(t) then only looks them up
             fresh.length(error=1e-2 * scale_now, min_depth=1)
